@@ -851,7 +851,7 @@ SPEC = Spec(
         "C21_primal_diff", "C21_tangent_diff", "C21_tree_diff_const", "C21_tree_diff_type_error",
         "C21_tree_diff_structure_error", "C21_primal_plain", "C21_primal_leaves", "C21_no_change_eq",
         "C21_unknown_change_eq", "C21_no_change_primal", "C21_unknown_change_primal", "C21_no_change_tangent",
-        "C21_unknown_change_tangent", "C21_retag_idem", "C21_no_change_idem", "C21_static_check_no_change_iff",
+        "C21_unknown_change_tangent", "C21_retag_idem", "C21_no_change_idem", "C21_diff_of_primal_tangent", "C21_static_check_no_change_iff",
         "C21_static_check_no_change_frontier", "C21_refuted", "C21_unflatten_flatten", "C21_flatten_unflatten",
         "C21_unflatten_leaf_count", "C21_boundary_id", "C21_flatten_leaves_no_static", "C21_static_not_traced",
         "C21_const_closure_leaves", "C21_tree_map_structure", "C21_tree_map_id_comp", "C21_tree_map_via_flatten",
